@@ -160,9 +160,13 @@ func (v *volume) rwCount() (int, int) {
 // ---- replica processes
 
 type proc struct {
-	cmd *exec.Cmd
-	dir string
-	ip  string
+	mu      sync.Mutex
+	cmd     *exec.Cmd
+	dir     string
+	ip      string
+	stopped bool
+	args    []string
+	starts  int
 }
 
 type world struct {
@@ -180,21 +184,59 @@ type world struct {
 
 func repIP(r int) string { return fmt.Sprintf("127.0.1.%d", r+1) }
 
+// startReplica starts a supervised replica process: like a pod, it is restarted when it exits on its own
+// (jiva replicas exit when an add attempt is refused, e.g. while the controller still lists the dead instance)
 func (w *world) startReplica(r int, vol int, extra ...string) error {
 	dir := filepath.Join(w.work, fmt.Sprintf("r%d", r))
 	args := []string{"replica", "--frontendIP", w.vols[vol].ip, "--listen", repIP(r) + ":9502", "--size", strconv.Itoa(size), "--logtofile=false"}
 	args = append(args, extra...)
 	args = append(args, dir)
-	cmd := exec.Command(w.bin, args...)
+	p := &proc{dir: dir, ip: repIP(r), args: args}
+	w.procs[r] = p
+	if err := w.spawn(r, p); err != nil {
+		return err
+	}
+	go func() {
+		for {
+			p.mu.Lock()
+			cmd := p.cmd
+			p.mu.Unlock()
+			cmd.Wait()
+			p.mu.Lock()
+			if p.stopped {
+				p.mu.Unlock()
+				return
+			}
+			p.mu.Unlock()
+			time.Sleep(time.Second)
+			p.mu.Lock()
+			if p.stopped {
+				p.mu.Unlock()
+				return
+			}
+			p.mu.Unlock()
+			if err := w.spawn(r, p); err != nil {
+				return
+			}
+		}
+	}()
+	return nil
+}
+
+func (w *world) spawn(r int, p *proc) error {
+	cmd := exec.Command(w.bin, p.args...)
 	cmd.Env = append(os.Environ(), "REPLICATION_FACTOR="+strconv.Itoa(w.rf))
-	logf, _ := os.Create(filepath.Join(w.work, fmt.Sprintf("r%d.log", r)))
+	logf, _ := os.OpenFile(filepath.Join(w.work, fmt.Sprintf("r%d.log", r)), os.O_CREATE|os.O_APPEND|os.O_WRONLY, 0600)
 	cmd.Stdout = logf
 	cmd.Stderr = logf
 	cmd.SysProcAttr = &syscall.SysProcAttr{Pdeathsig: syscall.SIGKILL, Setpgid: true}
 	if err := cmd.Start(); err != nil {
 		return err
 	}
-	w.procs[r] = &proc{cmd: cmd, dir: dir, ip: repIP(r)}
+	p.mu.Lock()
+	p.cmd = cmd
+	p.starts++
+	p.mu.Unlock()
 	return nil
 }
 
@@ -203,8 +245,12 @@ func (w *world) kill(r int) {
 	if p == nil {
 		return
 	}
-	syscall.Kill(-p.cmd.Process.Pid, syscall.SIGKILL)
-	p.cmd.Wait()
+	p.mu.Lock()
+	p.stopped = true
+	cmd := p.cmd
+	p.mu.Unlock()
+	syscall.Kill(-cmd.Process.Pid, syscall.SIGKILL)
+	time.Sleep(50 * time.Millisecond)
 	delete(w.procs, r)
 }
 
